@@ -1524,13 +1524,14 @@ fn material_threshold_family(band: i32, per_signature: usize) -> Vec<Position> {
 }
 
 /// A fixed catalogue of sparse positions: `n` candidates drawn from a fixed xorshift sequence (the
-/// same list on every run and for every seed) - each side a king plus 0..=4 men (queen, rook,
-/// bishop, knight, pawn), anywhere on the board, either side to move, nobody in check, no promotion
-/// move at the root.  Not a closed domain: see DESIGN.md (C13) for why it is there.
-fn sparse_catalogue(n: usize) -> Vec<Position> {
+/// same list on every run and for every seed), anywhere on the board, either side to move, nobody
+/// in check, no promotion move at the root. General: each side a king plus 0..=4 men (queen,
+/// rook, bishop, knight, pawn). Lopsided (mate-rich): one side a queen plus 1..=3 officers, the
+/// other 0..=3 men.  Not a closed domain: see DESIGN.md (C13) for why it is there.
+fn sparse_catalogue(n: usize, lopsided: bool) -> Vec<Position> {
     use refchess::Pc;
     let mut out = vec![];
-    let mut state: u64 = 0x2545_F491_4F6C_DD1D;
+    let mut state: u64 = if lopsided { 0x9E37_79B9_7F4A_7C15 } else { 0x2545_F491_4F6C_DD1D };
     let mut next = |m: u64| {
         state ^= state << 13;
         state ^= state >> 7;
@@ -1561,12 +1562,27 @@ fn sparse_catalogue(n: usize) -> Vec<Position> {
         };
         ok &= put(&mut p, Col::W, Pc::K, &mut next);
         ok &= put(&mut p, Col::B, Pc::K, &mut next);
+        if lopsided {
+            // one side: queen + 1..=3 officers; the other: 0..=3 men
+            let strong = if next(2) == 0 { Col::W } else { Col::B };
+            ok &= put(&mut p, strong, Pc::Q, &mut next);
+            let officers = [Pc::Q, Pc::R, Pc::B, Pc::N, Pc::R, Pc::B];
+            for _ in 0..(1 + next(3)) {
+                let pc = officers[next(officers.len() as u64) as usize];
+                ok &= put(&mut p, strong, pc, &mut next);
+            }
+            for _ in 0..next(4) {
+                let pc = kinds[next(kinds.len() as u64) as usize];
+                ok &= put(&mut p, strong.flip(), pc, &mut next);
+            }
+        } else {
         for c in [Col::W, Col::B] {
             let men = next(5);
             for _ in 0..men {
                 let pc = kinds[next(kinds.len() as u64) as usize];
                 ok &= put(&mut p, c, pc, &mut next);
             }
+        }
         }
         if !ok || p.valid_root().is_err() {
             continue;
@@ -1639,10 +1655,18 @@ pub fn run_c13(args: &Args) -> i32 {
         eprintln!("[C13] material-threshold family: {} positions", fam.len());
         positions.extend(fam);
     }
-    if let Ok(n) = std::env::var("C13_SPARSE_ONLY") {
-        // experiment switch: only the sparse catalogue of the given size
-        positions = sparse_catalogue(n.parse().unwrap_or(1000));
-        eprintln!("[C13] sparse catalogue only: {} positions", positions.len());
+    // fixed catalogues of sparse positions (see DESIGN.md, C13): mate-rich lopsided material, and
+    // (thorough) general sparse material
+    {
+        let a = sparse_catalogue(args.tier.pick(24_000, 240_000), true);
+        let b = if args.tier == Tier::Thorough { sparse_catalogue(120_000, false) } else { vec![] };
+        eprintln!("[C13] sparse catalogues: {} lopsided, {} general positions", a.len(), b.len());
+        if std::env::var("C13_SPARSE_ONLY").is_ok() {
+            // experiment switch: only these
+            positions.clear();
+        }
+        positions.extend(a);
+        positions.extend(b);
     }
     // no promotion available at the root (property text); one representative per mirror pair
     positions.retain(|p| !p.legal_moves().iter().any(|m| m.promo.is_some()) && !p.mirror().legal_moves().iter().any(|m| m.promo.is_some()));
@@ -1675,7 +1699,7 @@ pub fn run_c13(args: &Args) -> i32 {
         json!({
             "evaluations": compared,
             "distinct_nontrivial": pairs_with_depth,
-            "rule": "positions of the C11 catalogue plus every 811th (thorough 47th) position of the C12 endgame families and every 37th (thorough 5th) member of the castling family, plus a material-signature family (every multiset q,r,b,n <= 2, p <= 8 worth 1800 +-100 (thorough +-200) against eight weaker sides, both colours, both sides to move, one (thorough three) deterministic placement each), with no promotion move at the root (either colour), one representative per mirror pair; the position and its colour mirror are each searched with empty history at expiry points k = 1, 2, ..., 48, 60, 75, ... (ratio 1.25) up to the cap; the score committed for each completed depth is collected from those runs, and every depth both searches report is compared (score == negated mirror score). evaluations = (pair, depth) comparisons; non-trivial = pairs with at least one common completed depth.",
+            "rule": "positions of the C11 catalogue plus every 811th (thorough 47th) position of the C12 endgame families and every 37th (thorough 5th) member of the castling family, plus a material-signature family (every multiset q,r,b,n <= 2, p <= 8 worth 1800 +-100 (thorough +-200) against eight weaker sides, both colours, both sides to move, one (thorough three) deterministic placement each) and two fixed catalogues of sparse positions (24 000 candidates (thorough 240 000) with lopsided, mate-rich material - one side a queen plus 1-3 officers, the other 0-3 men - and, thorough only, 120 000 candidates with 0-4 men a side; candidates come from a fixed xorshift sequence, the same list on every run), with no promotion move at the root (either colour), one representative per mirror pair; the position and its colour mirror are each searched with empty history at expiry points k = 1, 2, ..., 48, 60, 75, ... (ratio 1.25) up to the cap; the score committed for each completed depth is collected from those runs, and every depth both searches report is compared (score == negated mirror score). evaluations = (pair, depth) comparisons; non-trivial = pairs with at least one common completed depth.",
             "mirror_pairs": positions.len(),
             "pairs_by_number_of_depths_compared": by_depth.iter().map(|(k, v)| json!([k, v])).collect::<Vec<_>>(),
             "cap_k": cap, "max_depth_compared": max_depth,
